@@ -37,6 +37,8 @@ FIXED = [
     ('D25a', ['C19', 'C18', 'C08'], 'the reference count of a timer list node is atomic', 'Entry ref count of mpsc_list_v1 nodes was a plain usize updated from the timer thread and from handle owners: lost decrement / double free under contention'),
     ('D25b', ['C19', 'C18', 'C08'], 'dropping a timer list leaves its stub node', 'TimeOutList interval clean-up (> 1024 distinct intervals) dropped a list whose stub node a TimeoutHandle still pointed to: heap-use-after-free in Entry::drop (ASan, tcp/io at 16 workers)'),
     ('D26', ['C17'], 'CoIo leaves the selector before its descriptor is closed', 'CoIo (unix sockets) closed the descriptor before EPOLL_CTL_DEL; a socket opened in between by another thread reused the number and lost its registration: reader suspended forever with bytes in the kernel (iochurn; rare hangs of the os::unix::net tests)'),
+    ('D27', ['C12', 'C09'], 'RwLock read_unlock waits for the reader count with cancel disabled', 'cancel of a reader coroutine while it waits for the reader-count mutex in the drop of its guard (other readers active): cancel panic out of the drop, count never decremented, lock read-locked forever, writers stranded (rwcr, first few executions)'),
+    ('D28', ['C11', 'C05', 'C09'], 'SyncBlocker::unpark sets its flag before it wakes the waiter', 'a notified Condvar waiter re-locking the mutex (cancel ignored) is resumed by a cancel between the unlocker\'s blocker.unpark() and its unparked.store(true): the token is wiped, is_unparked() is still false, the waiter parks again for ever, mutex never released (residual of the D12 repair; relock / cvc with a stall at SYNCBLOCKER_UNPARK_MID +fire)'),
 ]
 
 KNOWN = [
